@@ -208,3 +208,29 @@ class Adapter:
             d[code][0] = v
         else:
             d[code] = collections.deque([v])
+
+
+# ------------------------------------------------------------------ companion settings
+SETTING_RANGES = {1: (0, 2 ** 32 - 1), 2: (0, 1), 3: (0, 2 ** 32 - 1), 4: (0, 2 ** 31 - 1),
+                  5: (16384, 2 ** 24 - 1), 6: (0, 2 ** 32 - 1), 8: (0, 1)}
+
+
+def sym_companion(settings, role_client=None, exclude=(), tag='co', subset=False):
+    """A SETTINGS payload rarely carries one setting alone.  Adds to the dict `settings`
+    a solver-chosen companion: none, or one other known setting (any subset of them with
+    subset=True) with a symbolic value from its valid range -- so that the handling of the
+    setting under test is decided in the presence of every other setting.
+    role_client: the SENDER's role (a server must not send ENABLE_PUSH != 0)."""
+    from .core import sym_choice, sym_bool, sym_int
+    cands = [k for k in sorted(SETTING_RANGES) if k not in exclude and k not in settings]
+    if subset:
+        chosen = [k for k in cands if sym_bool('%s_has_%d' % (tag, k))]
+    else:
+        pick = sym_choice(tag + '_id', [0] + cands)
+        chosen = [pick] if pick else []
+    for k in chosen:
+        lo, hi = SETTING_RANGES[k]
+        if k == 2 and role_client is False:
+            hi = 0
+        settings[k] = sym_int('%s_v%d' % (tag, k), lo, hi, default=lo)
+    return chosen
